@@ -181,7 +181,16 @@ fn named_values(ctx: &Ctx, rep: &mut Report) {
                 let r = guard(|| {
                     let mut p = Packet::new();
                     p.add_option(CoapOption::ContentFormat, refmodel::uint::enc(id as u128));
-                    p.get_content_format().map(|c| format!("{:?}", c))
+                    let got = p.get_content_format();
+                    // whatever format the getter names for this id: setting it must store exactly this id
+                    if let Some(cf) = got {
+                        let mut q = Packet::new();
+                        q.set_content_format(cf);
+                        if q.get_first_option(CoapOption::ContentFormat) != Some(&refmodel::uint::enc(id as u128)) || q.get_content_format() != Some(cf) {
+                            return Some(format!("{:?}-whose-setter-stores-{:?}", cf, q.get_first_option(CoapOption::ContentFormat).map(|v| hex(v))));
+                        }
+                    }
+                    got.map(|c| format!("{:?}", c))
                 });
                 let expect = reg::CONTENT_FORMATS.iter().find(|e| e.0 == id && !e.2.is_empty()).map(|e| e.2.to_string());
                 match r {
